@@ -115,6 +115,12 @@ def check_append_absent(ctx, rule: str, select=lambda fi: True):
         aliases = _aliases(fi, recv)
         guarded = any(is_nonmembership(t, p, recv, val, aliases) for t, p in conds)
         c = construct(fi, f"{recv}.append({val})")
+        if _plain_list_receiver(fi, call.func.value) or isinstance(call.args[0], (ast.List, ast.ListComp, ast.Dict, ast.DictComp, ast.Tuple)) or (
+                isinstance(call.args[0], ast.BinOp) and isinstance(call.args[0].op, ast.Add) and any(isinstance(x, ast.List) for x in (call.args[0].left, call.args[0].right))):
+            # a plain Python list built in this function (duplicates are harmless there), or a
+            # non-scalar element (the members of an order are scalars): not an order
+            ctx.ob(rule, c, True, loc(fi, call), "receiver is a plain list built in the function / the element is not a scalar: not a GroupedList")
+            continue
         if guarded:
             ctx.ob(rule, c, True, loc(fi, call), "guarded by a non-membership test")
             continue
@@ -126,6 +132,36 @@ def check_append_absent(ctx, rule: str, select=lambda fi: True):
                "append of a value that may already be a member: GroupedList.append resets its group to [value] "
                "and duplicates the leader (members of the existing group vanish from `content`)")
     return n
+
+
+def _plain_list_receiver(fi: FunctionInfo, recv: ast.expr) -> bool:
+    """The receiver is a local name every definition of which is syntactically a plain list."""
+    if not isinstance(recv, ast.Name) or recv.id in fi.params:
+        return False
+    defs = []
+    for n in walk_no_nested(fi.node):
+        if isinstance(n, ast.Assign):
+            for t in n.targets:
+                for x in ast.walk(t):
+                    if isinstance(x, ast.Name) and x.id == recv.id and isinstance(x.ctx, ast.Store):
+                        defs.append(n.value if (len(n.targets) == 1 and t is x) else None)
+        elif isinstance(n, (ast.For, ast.comprehension, ast.With)):
+            tg = n.target if not isinstance(n, ast.With) else None
+            if tg is not None and any(isinstance(x, ast.Name) and x.id == recv.id for x in ast.walk(tg)):
+                defs.append(None)
+        elif isinstance(n, ast.AnnAssign) and isinstance(n.target, ast.Name) and n.target.id == recv.id:
+            defs.append(n.value)
+
+    def plain(e) -> bool:
+        if isinstance(e, (ast.List, ast.ListComp)):
+            return True
+        if isinstance(e, ast.Call) and isinstance(e.func, ast.Name) and e.func.id in ("list", "sorted"):
+            return True
+        if isinstance(e, ast.BinOp) and isinstance(e.op, ast.Add):
+            return plain(e.left) or plain(e.right)
+        return False
+
+    return bool(defs) and all(d is not None and plain(d) for d in defs)
 
 
 def _exception_still_valid(fi: FunctionInfo, call: ast.Call, recv: str, val: str) -> bool:
